@@ -97,6 +97,8 @@ fn main() {
         for ev in evs {
             writeln!(o, "{}", ev).unwrap();
         }
+        // flush per command: if the code under test kills the process, the events so far must be on disk
+        o.flush().unwrap();
     }
     out.lock().unwrap().flush().unwrap();
 }
